@@ -17,6 +17,8 @@ ENGINE = "include/iora/network/detail/tcp_engine.hpp"
 HCLIENT = "include/iora/network/http_client.hpp"
 HSERVER = "include/iora/network/http_server.hpp"
 TYPES = "include/iora/network/transport_types.hpp"
+UDPENGINE = "include/iora/network/detail/udp_engine.hpp"
+SERVICE = "include/iora/iora.hpp"
 
 
 # ------------------------------------------------------------------ a small statement-tree parser
@@ -186,6 +188,10 @@ SIGS = {
     "setTlsConfig": r"void setTlsConfig\(const TlsConfig &config\)",
     "start": r"void start\(\)",
     "enableTls": r"void enableTls\(const TlsConfig &config\)",
+    "readAvail": r"void readAvail\(Session \*s\)",
+    "stop": r"void stop\(\)",
+    "udpConnect": r"ConnectResult connect\(const std::string &host, std::uint16_t port, TlsMode tls\) override",
+    "udpAddListener": r"ListenResult addListener\(const std::string &bind, std::uint16_t port, TlsMode tls\) override",
 }
 
 
@@ -972,6 +978,174 @@ def http_server_facts(src):
     return cmap, MODES[m.group(1)], MODES[m.group(2)], req_ck, req_ca
 
 
+# ------------------------------------------------------------------ receive side, lifecycles, UDP (C07 extension round)
+def member_index(src):
+    """enclosing member function of a source position (same crude index as call_inventory)"""
+    starts = [(mm.start(), mm.group(1)) for mm in re.finditer(r"\n  (?:static |virtual |inline )*[\w:<>\*&, ]+?[ \*&](\w+)\([^;{}]*\)\s*(?:const\s*)?(?:override\s*)?\n  \{", src)]
+    def encl(pos):
+        fn = "?"
+        for p0, name in starts:
+            if p0 < pos:
+                fn = name
+            else:
+                break
+        return fn
+    return encl
+
+
+def recv_facts(src):
+    """Who may hand bytes to onData: `readAvail` takes SSL_read exactly for an Open TLS session and the raw ::recv otherwise (ALSO for a
+    session still in its handshake), so the callers matter: onSession reads after the handshake gate, driveHandshake inside `rc == 1`
+    after `tlsState = Open`. Each fact is CONSUMED by `recvStep` (Model/TlsLife.lean)."""
+    f = {}
+    HS = "s->tlsMode != TlsMode::None && s->tlsState == TlsState::Handshake"
+    OPEN = "s->tlsMode != TlsMode::None && s->tlsState == TlsState::Open"
+    ra = parse_stmts(body_of(src, "readAvail"))
+    reads = find_paths(ra, lambda x: x[0] == "stmt" and "::SSL_read(" in x[1])
+    recvs = find_paths(ra, lambda x: x[0] == "stmt" and re.search(r"(?<![\w>.:])(?:::)?recv\(\s*s->fd", x[1]))
+    if len(reads) != 1 or len(recvs) != 1:
+        raise TranslateError("readAvail: expected exactly one ::SSL_read and one raw ::recv(s->fd, found %d / %d" % (len(reads), len(recvs)))
+    f["readAvailSslWhenOpenTls"] = ("if", OPEN) in reads[0][0] and ("else", OPEN) in recvs[0][0]
+    cbs = find_paths(ra, lambda x: x[0] == "stmt" and "dataCb(" in x[1] and not x[1].startswith("decltype"))
+    if len(cbs) != 1 or src.count("dataCb(s->id") != 1:
+        raise TranslateError("tcp_engine.hpp: onData is invoked somewhere else than the one site in readAvail")
+    encl = member_index(src)
+    # raw socket I/O on anything but the wake-up descriptors is confined (`::write(fd…)` / `::read(fd…)` would bypass the TLS state checks)
+    for mm in re.finditer(r"(?<![\w>.:])(::)?(send|write|writev|sendmsg|sendto|recv|read|readv|recvmsg|recvfrom)\(\s*([\w>.\-]+)", blank_strings(src)):
+        glob, call, arg, fn = mm.group(1), mm.group(2), mm.group(3), encl(mm.start())
+        if not glob and not re.search(r"fd", arg, re.I):
+            continue                                        # a member function named send/read/… (declaration or call), not the system call
+        if arg in ("_eventFd", "_timerFd"):
+            continue
+        inbound = call in ("recv", "read", "readv", "recvmsg", "recvfrom")
+        ok = arg == "s->fd" and ((inbound and call == "recv" and fn == "readAvail") or (not inbound and call == "send" and fn in ("doSend", "writePending")))
+        if not ok:
+            raise TranslateError("tcp_engine.hpp: raw socket I/O `%s(%s, ...)` in %s (outside the modelled send/receive sites)" % (call, arg, fn))
+    callers = [encl(mm.start()) for mm in re.finditer(r"(?<![\w])readAvail\(s\)", src)]
+    if sorted(callers) != ["driveHandshake", "onSession"]:
+        raise TranslateError("tcp_engine.hpp: readAvail(s) is called from %r (expected once from onSession, once from driveHandshake)" % (callers,))
+    os_nodes = parse_stmts(body_of(src, "onSession"))
+    hb = [i for i, nd in enumerate(os_nodes) if nd[0] == "if" and nd[1] == HS]
+    rdi = [i for i, nd in enumerate(os_nodes) if find_paths([nd], lambda x: x[0] == "stmt" and x[1] == "readAvail(s)")]
+    f["readAvailAfterHandshakeGate"] = len(hb) == 1 and len(rdi) == 1 and hb[0] < rdi[0]
+    dh = norm(body_of(src, "driveHandshake"))
+    m = re.search(r"int rc = ::SSL_do_handshake\(s->ssl\); if \(rc == 1\) \{(.*?)return true; \}", dh)
+    if not m:
+        raise TranslateError("driveHandshake: `if (rc == 1) {...}` not found")
+    okb = m.group(1)
+    f["driveHsReadsOnlyAfterOpen"] = dh.count("readAvail(s)") == 1 and "readAvail(s)" in okb and "s->tlsState = TlsState::Open" in okb and \
+        okb.index("s->tlsState = TlsState::Open") < okb.index("readAvail(s)")
+    return f
+
+
+def span_of(src, name):
+    hits = [m for m in re.finditer(r"(?:%s)\s*\{" % SIGS[name], src)]
+    if len(hits) != 1:
+        raise TranslateError("definition of %s: expected exactly one match of its signature, found %d" % (name, len(hits)))
+    return hits[0].start(), cxxscan.match_brace(src, hits[0].end() - 1)
+
+
+def http_server_life_facts(src):
+    """enableTls on a started server throws (instead of being silently ignored); `_tlsConfig` is written by enableTls only."""
+    en = norm(body_of(src, "enableTls"))
+    if re.match(r"std::lock_guard<std::mutex> lock\(_mutex\); if \(_transport\) \{ throw std::logic_error\(", en):
+        rejects = True
+    elif "_transport" in en:
+        raise TranslateError("HttpServer::enableTls: unrecognised use of _transport")
+    else:
+        rejects = False
+    spans = {n: span_of(src, n) for n in ("enableTls", "start", "stop")}
+    stop_keeps = True
+    writes_in_enable = 0
+    for mm in re.finditer(r"_tlsConfig\b", src):
+        u = mm.start()
+        rest = src[u:u + 40]
+        where = [n for n, (a, b) in spans.items() if a < u < b]
+        if re.match(r"_tlsConfig;", rest) and not where:
+            continue                                        # the member declaration
+        if where == ["enableTls"] and re.match(r"_tlsConfig = config;", rest):
+            writes_in_enable += 1
+        elif where == ["start"] and re.match(r"_tlsConfig\.(has_value|value)\(\)", rest):
+            pass
+        elif where == ["stop"] and re.match(r"_tlsConfig(\.reset\(\)| = std::nullopt| = \{\})", rest):
+            stop_keeps = False
+        else:
+            raise TranslateError("HttpServer: _tlsConfig used in an unmodelled way (%s): %r" % (where or "outside enableTls/start/stop", rest))
+    if writes_in_enable != 1:
+        raise TranslateError("HttpServer::enableTls: expected exactly one `_tlsConfig = config;`")
+    st = norm(body_of(src, "start"))
+    if st.count("_transport = Transport::tcp(config)") != 1 or st.index("_tlsConfig.has_value()") > st.index("_transport = Transport::tcp(config)"):
+        raise TranslateError("HttpServer::start: the transport is not created from the TLS settings read just before")
+    sp = norm(body_of(src, "stop"))
+    if "_transport.reset()" not in sp:
+        raise TranslateError("HttpServer::stop: the transport is not released (enableTls could never be accepted again)")
+    return rejects, stop_keeps
+
+
+def http_init_failure_fact(src):
+    ei = norm(body_of(src, "ensureInitialized"))
+    m = re.search(r"_transport = Transport::tcp\(transportConfig\);.*?auto startResult = _transport->start\(\); if \(startResult\.isErr\(\)\) \{ (.*?)throw std::runtime_error\(", ei)
+    if not m:
+        raise TranslateError("HttpClient::ensureInitialized: start-failure branch not recognised")
+    pre = m.group(1).strip()
+    if pre == "":
+        return False
+    if pre == "_transport.reset();":
+        return True
+    raise TranslateError("HttpClient::ensureInitialized: unrecognised statements before the start-failure throw: %r" % pre)
+
+
+def udp_facts(src):
+    out = []
+    for name, res in (("udpConnect", "ConnectResult"), ("udpAddListener", "ListenResult")):
+        body = norm(body_of(src, name))
+        if re.match(r"if \(tls != TlsMode::None\) \{ (?:error\([^;]*\); )?return %s::err\(" % res, body):
+            out.append(True)
+        elif re.match(r"if \([^)]*\btls\b", body):
+            raise TranslateError("UdpEngine::%s: unrecognised leading condition on the requested TLS mode" % name)
+        else:
+            out.append(False)
+    if re.search(r"SSL_|TlsState", blank_strings(src)):
+        raise TranslateError("udp_engine.hpp mentions OpenSSL / TlsState: the UDP engine is modelled as having no TLS at all")
+    return tuple(out)
+
+
+def service_facts(src):
+    """IoraService::applyConfig, webhook-server part: WHICH settings make the service call enableTls (the formula of `hasTls`), that the four
+    settings are handed on unchanged, and that enableTls comes before start()."""
+    flat = norm(blank_strings(src))
+    m = re.search(r"bool hasTls = (.*?); if \(hasTls\) \{(.*?)\} else \{", flat)
+    if not m:
+        raise TranslateError("IoraService::applyConfig: `bool hasTls = ...; if (hasTls) {...} else {` not found")
+    atoms = {"_config.server.tls.certFile.has_value()": ".certFileSet", "_config.server.tls.keyFile.has_value()": ".keyFileSet",
+             "_config.server.tls.caFile.has_value()": ".caFileSet", "_config.server.tls.requireClientCert.value_or(false)": ".verifyPeer"}
+
+    def parse(e):
+        e = strip_parens(e.strip())
+        for op, tag in (("||", "or"), ("&&", "and")):
+            parts = split_top(e, op)
+            if len(parts) > 1:
+                g = parse(parts[0])
+                for q in parts[1:]:
+                    g = Gd(tag, g, parse(q))
+                return g
+        if e in atoms:
+            return Gd("atom", atoms[e])
+        raise TranslateError("IoraService::applyConfig: unrecognised term in hasTls: %r" % e)
+    g = parse(m.group(1))
+    thn = m.group(2)
+    for field, rhs in (("certFile", '_config.server.tls.certFile.value_or("")'), ("keyFile", '_config.server.tls.keyFile.value_or("")'),
+                       ("caFile", '_config.server.tls.caFile.value_or("")'), ("requireClientCert", "_config.server.tls.requireClientCert.value_or(false)")):
+        if "tlsCfg.%s = %s;" % (field, rhs) not in thn:
+            raise TranslateError("IoraService::applyConfig: tlsCfg.%s is not taken from server.tls.%s" % (field, field))
+    if "_webhookServer->enableTls(tlsCfg);" not in thn:
+        raise TranslateError("IoraService::applyConfig: the hasTls branch does not call enableTls(tlsCfg)")
+    after = flat[m.end():]
+    if "_webhookServer->start();" not in after or "_webhookServer->start();" in flat[:m.start()].split("_webhookServer = std::make_unique<network::WebhookServer>")[-1]:
+        raise TranslateError("IoraService::applyConfig: the webhook server is not started AFTER the TLS decision")
+    return g
+
+
 # ------------------------------------------------------------------ inventory of every OpenSSL call of the engine
 CONFIG_CALLS = {"SSL_CTX_set_verify": {"initTls"}, "SSL_CTX_set_min_proto_version": {"applyTls12Floor"}, "SSL_CTX_get_min_proto_version": {"applyTls12Floor"}, "SSL_CTX_load_verify_locations": {"initTls"},
                 "SSL_CTX_set_default_verify_paths": {"initTls"}, "SSL_set1_host": {"doConnect"}, "SSL_set_tlsext_host_name": {"doConnect"},
@@ -1031,14 +1205,19 @@ def gen(repo):
     c_ref, c_new, c_sni, c_s1h, c_fc = connect_site(src)
     l_ref, l_new = listen_site(src)
     sf = session_facts(src)
+    rf = recv_facts(src)
     inv = call_inventory(src)
     cmap, host_src, https_req, http_req, localhost_to = http_client_facts(hc)
     uf = http_url_facts(hc)
     reconf_rejects = http_reconf_facts(hc)
     smap, s_on, s_off, req_ck, req_ca = http_server_facts(hs)
+    en_rejects, stop_keeps = http_server_life_facts(hs)
+    init_releases = http_init_failure_fact(hc)
+    udp_c, udp_l = udp_facts(read(repo, UDPENGINE))
+    svc_g = service_facts(read(repo, SERVICE))
     tls12 = openssl_const("TLS1_2_VERSION")
 
-    t = HEADER % ", ".join([ENGINE, HCLIENT, HSERVER, TYPES])
+    t = HEADER % ", ".join([ENGINE, HCLIENT, HSERVER, TYPES, UDPENGINE, SERVICE])
     t += "import IoraModel.Model.TlsTypes\nnamespace Iora.Gen.TlsCalls\nopen Iora.Tls\n\n"
     t += "/-- `applyTls12Floor`: `minVer = configuredMin <cmp> %s ? <thenArm> : <elseArm>`; the constant's value is read from the installed OpenSSL headers -/\n" % kname
     t += "def floorCmp : Cmp := %s\ndef floorConst : Int := %d\ndef floorThen : FloorArm := %s\ndef floorElse : FloorArm := %s\n" % (cmp_, kval, arms[0], arms[1])
@@ -1057,6 +1236,9 @@ def gen(repo):
               "sendGuardPrecedesIo", "doSendSslWhenOpenTls", "writePendingSslWhenOpenTls", "writePendingSkipsHandshake", "plainAnnounceRequiresModeNone",
               "handshakeDrivenFirst", "handshakeReturnsWhenIncomplete", "immediateAnnounceRequiresReqNone"):
         t += "def %s : Bool := %s\n" % (k, "true" if sf[k] else "false")
+    t += "/-- receive side: `readAvail` takes `SSL_read` exactly for an Open TLS session (else the raw `::recv`); in `onSession` the read comes after the handshake gate; `driveHandshake` reads only inside its `rc == 1` block, after `tlsState = Open`; raw `::recv(s->fd` occurs in `readAvail` only -/\n"
+    for k in ("readAvailSslWhenOpenTls", "readAvailAfterHandshakeGate", "driveHsReadsOnlyAfterOpen"):
+        t += "def %s : Bool := %s\n" % (k, "true" if rf[k] else "false")
     t += "\n" + lean_map("httpClientMap", cmap, "`HttpClient::ensureInitialized`: where each field of `transportConfig.clientTls` comes from")
     t += "/-- `HttpClient::acquireConnection`: the string handed to `connectSync`, the mode for https / http URLs, what `localhost` resolves to -/\n"
     t += "def httpClientHost : HostSrc := %s\ndef httpClientHttpsReq : Mode := %s\ndef httpClientHttpReq : Mode := %s\ndef httpClientLocalhost : String := \"%s\"\n" % (
@@ -1071,10 +1253,18 @@ def gen(repo):
     t += "def cacheReuseChecksTlsMode : Bool := %s\n" % B(uf["checks_mode"])
     t += "/-- `setTlsConfig`: the TLS settings are read once, in `ensureInitialized`; does a later call that would CHANGE them throw (true) or is it silently ignored (false) -/\n"
     t += "def setTlsConfigRejectsChangeAfterInit : Bool := %s\n" % B(reconf_rejects)
+    t += "/-- `ensureInitialized`: when `_transport->start()` fails, is `_transport` released before the exception leaves (true) or kept, dead (false) -/\n"
+    t += "def initFailureReleasesTransport : Bool := %s\n" % B(init_releases)
     t += "\n" + lean_map("httpServerMap", smap, "`HttpServer::start`: where each field of `config.serverTls` comes from (only when `enableTls` was called)")
     t += "/-- listener mode with / without `enableTls`; `enableTls` preconditions -/\n"
     t += "def httpServerTlsReq : Mode := %s\ndef httpServerPlainReq : Mode := %s\ndef enableTlsRequiresCertAndKey : Bool := %s\ndef enableTlsRequiresCaForClientCert : Bool := %s\n" % (
         s_on, s_off, "true" if req_ck else "false", "true" if req_ca else "false")
+    t += "/-- `HttpServer::enableTls` on a started server (`_transport` set) throws (true) or is silently accepted-and-ignored (false); `_tlsConfig` is written by `enableTls` only (true) or also cleared by `stop()` (false) -/\n"
+    t += "def enableTlsRejectsWhenStarted : Bool := %s\ndef stopKeepsTlsConfig : Bool := %s\n" % (B(en_rejects), B(stop_keeps))
+    t += "\n/-- `UdpEngine::connect` / `addListener`: the first statement refuses every request with `tls != TlsMode::None` -/\n"
+    t += "def udpConnectRefusesTls : Bool := %s\ndef udpListenRefusesTls : Bool := %s\n" % (B(udp_c), B(udp_l))
+    t += "\n/-- `IoraService::applyConfig`: the condition `hasTls` under which the webhook server gets `enableTls` before `start()` (atoms: certFile / keyFile / caFile `.has_value()`, `.verifyPeer` = `requireClientCert.value_or(false)`); the four settings are handed on unchanged -/\n"
+    t += "def serviceHasTls : G := %s\n" % svc_g.lean()
     t += "\n/-- every OpenSSL call of tcp_engine.hpp with the member functions it occurs in (configuration calls are confined to the modelled functions) -/\n"
     t += "def sslCallInventory : List (String × List String) := [\n"
     t += ",\n".join('  ("%s", [%s])' % (n, ", ".join('"%s"' % f for f in sorted(inv[n]))) for n in sorted(inv))
